@@ -10,6 +10,7 @@ read-only.
 import SamVerif.Model.Dispatch
 import SamVerif.Spec.RedisFlags
 import SamVerif.Gen.Upstream
+import SamVerif.Gen.ScanText
 namespace SamVerif.Props.C14
 open SamVerif SamVerif.Dispatch
 
@@ -146,6 +147,7 @@ theorem code_matches_model :
     Gen.Upstream.doSlotsRefresh =
       ["v := newArray( *newBulkString(\"cluster\"), *newBulkString(\"nodes\"), )",
       "req := newSimpleRequest(v)",
+      "req.abort = u.quit",
       "addr, err := u.randomHost()",
       "if err != nil { return err }",
       "u.MakeRequestToHost(addr, req)",
@@ -157,6 +159,25 @@ theorem code_matches_model :
       "if err != nil { return err }",
       "for _, inst := range insts { for _, slot := range inst.Slots { if slot < 0 || slot >= slotNum { continue } u.slots[slot] = inst } }",
       "return nil"] := by
+  refine ⟨rfl, rfl⟩
+
+/-- **The code the model was written against.** The statements of the modelled functions,
+regenerated from the current source on every run, are the ones the model was written against;
+any edit to one of them makes this obligation fail and starts a search for a failing input. -/
+theorem scan_walk_matches_model :
+    Gen.ScanText.handleScan =
+      ["scanReq, err := newScanRequest(req)",
+      "if err != nil { req.SetResponse(newError(err.Error())) return }",
+      "nodeIdx, simpleReq := scanReq.Convert()",
+      "addrs := scanAddrs(u)",
+      "if int(nodeIdx) >= len(addrs) { req.SetResponse(respScanTerm) return }",
+      "u.MakeRequestToHost(addrs[nodeIdx], simpleReq)"] ∧
+    Gen.ScanText.scanAddrs =
+      ["var ( addrs []string seen = make(map[string]struct{}) )",
+      "for i := range u.slots { inst := u.slots[i] if inst == nil { continue } if _, ok := seen[inst.Addr]; !ok { seen[inst.Addr] = struct{}{} addrs = append(addrs, inst.Addr) } }",
+      "if len(addrs) == 0 { for _, h := range u.Hosts() { addrs = append(addrs, h.Addr) } return addrs }",
+      "sort.Strings(addrs)",
+      "return addrs"] := by
   refine ⟨rfl, rfl⟩
 
 end SamVerif.Props.C14
@@ -172,3 +193,4 @@ end SamVerif.Props.C14
 #print axioms SamVerif.Props.C14.well_known_unsupported
 #print axioms SamVerif.Props.C14.normaliser_is_ascii
 #print axioms SamVerif.Props.C14.code_matches_model
+#print axioms SamVerif.Props.C14.scan_walk_matches_model
